@@ -221,6 +221,14 @@ Definition run_line (m : mode) (line : list N) : list N :=
             end
         | _, _ => err "e2e"
         end
+      else if is h "OWN" then
+        (* Request::into_owned / SlaveRequest::into_owned: the same value, owning its payload *)
+        match parse_dec pr, rest with
+        | Some s, [rq_] => match parse_req rq_ with
+                           | Some r => show_req r ++ [ch_space] ++ show_dec s ++ [ch_colon] ++ show_req r
+                           | None => err "req" end
+        | _, _ => err "own"
+        end
       else if is h "ACCADDR" then
         (* accept_tcp_connection hands the peer address it was given to the service factory, once, unchanged *)
         match rest with
